@@ -800,4 +800,142 @@ theorem pointerFor_sound (pre path ptr : List Char) (h : pointerFor pre path = s
             · rename_i heq; simp at heq; exact absurd heq.1 hc
             · cases h
 
+/-! ## no callable at the root key -/
+
+theorem splitOn_singleton_nil (sep : Char) (s : List Char) (h : splitOn sep s = [[]]) : s = [] := by
+  cases s with
+  | nil => rfl
+  | cons c r =>
+    by_cases hc : c = sep
+    · subst hc
+      rw [splitOn_cons_sep] at h
+      simp at h
+      exact absurd h (splitOn_ne_nil _ _)
+    · obtain ⟨hd, tl, _, h2⟩ := splitOn_cons_ne sep c r hc
+      rw [h2] at h; simp at h
+
+theorem unescScan_eq_nil (x : Tok) (h : unescScan x = some []) : x = [] := by
+  cases x with
+  | nil => rfl
+  | cons c r =>
+    by_cases hc : c = '~'
+    · subst hc
+      cases r with
+      | nil => rw [unescScan_t] at h; cases h
+      | cons d r' =>
+        by_cases h0 : d = '0'
+        · subst h0; rw [unescScan_t0] at h; cases hr : unescScan r' <;> simp [hr] at h
+        · by_cases h1 : d = '1'
+          · subst h1; rw [unescScan_t1] at h; cases hr : unescScan r' <;> simp [hr] at h
+          · rw [unescScan_tx d r' h0 h1] at h; cases h
+    · rw [unescScan_cons_ne c r hc] at h; cases hr : unescScan r <;> simp [hr] at h
+
+theorem parsePointer_ne_single_empty (p : Ptr) : parsePointer p ≠ .ok [[]] := by
+  intro h
+  unfold parsePointer at h
+  split at h
+  · cases h
+  · rename_i hroot
+    split at h
+    · rename_i rest
+      have hne : rest ≠ [] := by intro e; subst e; simp at hroot
+      cases hm : mapOpt unescapeToken (splitOn '/' rest) with
+      | none => simp [hm] at h
+      | some segs =>
+        simp [hm] at h; subst h
+        cases hs : splitOn '/' rest with
+        | nil => exact absurd hs (splitOn_ne_nil _ _)
+        | cons x xs =>
+          rw [hs] at hm
+          simp only [mapOpt] at hm
+          cases hx : unescapeToken x with
+          | none => simp [hx] at hm
+          | some y =>
+            simp only [hx] at hm
+            cases xs with
+            | nil =>
+              simp [mapOpt] at hm; subst hm
+              rw [unescapeToken_eq_scan] at hx
+              have := unescScan_eq_nil x hx; subst this
+              exact hne (splitOn_singleton_nil _ _ hs)
+            | cons x2 xs2 =>
+              simp only [mapOpt] at hm
+              cases hx2 : unescapeToken x2 with
+              | none => simp [hx2] at hm
+              | some y2 =>
+                simp only [hx2] at hm
+                cases hm2 : mapOpt unescapeToken xs2 <;> simp [hm2] at hm
+    · cases h
+
+theorem canonicalPointer_eq_root (segs : List Tok) (hne : segs ≠ []) (h : canonicalPointer segs = ['/']) :
+    segs = [[]] := by
+  cases segs with
+  | nil => exact absurd rfl hne
+  | cons s r =>
+    simp only [canonicalPointer, List.isEmpty_cons, Bool.false_eq_true, if_false, joinSegs] at h
+    simp only [List.cons.injEq, true_and, List.append_eq_nil_iff] at h
+    obtain ⟨hs, hr⟩ := h
+    have hs' : s = [] := by
+      cases s with
+      | nil => rfl
+      | cons c t => rw [escapeToken_cons] at hs; unfold esc1 at hs; split at hs <;> (try split at hs) <;> simp at hs
+    have hr' : r = [] := by
+      cases r with
+      | nil => rfl
+      | cons a b => simp [joinSegs] at hr
+    rw [hs', hr']
+
+theorem fget_fset_ne (k k' : Key) (f : Fn) (l : List (Key × Fn)) (h : k ≠ k') :
+    fget k' (fset k f l) = fget k' l := by
+  induction l with
+  | nil => simp [fset, fget, h]
+  | cons hd tl ih =>
+    obtain ⟨a, b⟩ := hd
+    unfold fset; split
+    · rename_i e; subst e; simp [fget, h]
+    · simp [fget, ih]
+
+/-- "No function can register at the root": the key `/` is never in the function map. -/
+theorem root_key_free_preserved (rc : Bool) (reg : Reg) (op : Op) (h : fget ['/'] reg.funcs = none) :
+    fget ['/'] (reg.apply rc op).1.funcs = none := by
+  cases op with
+  | setRoot v => exact h
+  | regValue path v =>
+    simp only [Reg.apply, Reg.registerValue]
+    split <;> exact h
+  | regFunc path f =>
+    simp only [Reg.apply, Reg.registerFunction]
+    split
+    · exact h
+    · exact h
+    · rename_i _ segs hne' hs
+      have hne : segs ≠ [] := fun e => hne' e
+      simp only
+      rw [fget_fset_ne _ _ _ _ ?_]; exact h
+      intro hk
+      have := canonicalPointer_eq_root segs hne hk
+      subst this
+      unfold parseRegistrationPath at hs
+      split at hs
+      · cases hs
+      · split at hs
+        · exact parsePointer_ne_single_empty _ hs
+        · exact parsePointer_ne_single_empty _ hs
+  | mergeRoot o => exact h
+  | mergeAt path o =>
+    simp only [Reg.apply, Reg.mergeAt]
+    split
+    · exact h
+    · exact h
+    · split <;> exact h
+  | read p => exact h
+  | disp p body =>
+    cases body with
+    | none => exact h
+    | some v =>
+      show fget ['/'] (reg.dispatch rc p (some v)).1.funcs = none
+      cases hc : reg.callableAt p with
+      | some f => rw [dispatch_some_of_callable rc reg p v f hc]; exact h
+      | none => rw [dispatch_some_of_not_callable rc reg p v hc, (writeAt_log reg p v).2]; exact h
+
 end Repe
